@@ -29,7 +29,7 @@ func init() {
 		Run:       runC11,
 		Technique: "static analysis: typestate (acquire/close on all paths) over go/ssa for every iterable.Iterator obtained inside library code, plus the C10 head-propagation rule",
 		Explanation: "R1: every value of an iterable.Iterator type obtained by a call of Map.Iterator in non-test library code, and neither returned nor stored into a field, is closed (defer or explicit) on every path to a normal exit. " +
-			"R2 (=C10.R1): the unlink result is propagated to the head at every call site, otherwise a stuck head pins every removed node behind it. R3: cursor routines are applied only to iterator cursors. M1-M10: the reference counting and list rules of C10. R4: every insert of the LRU cache is followed by the capacity test in the same critical section (C09.R4). R5: the unlink routine overwrites every payload field of the node (key and value) with its zero value on every path that changes the node - a recycled node keeps nothing of the removed entry reachable. R6: what the creator's epilogue removes from a table of the cache (the in-flight table, any further built-in map of the cache struct) on one outcome of the creation it removes - or sees absent - on every outcome. R7: an iterator of the package that owns several source iterators closes every one of them on every path of its Close.",
+			"R2 (=C10.R1): the unlink result is propagated to the head at every call site, otherwise a stuck head pins every removed node behind it. R3: cursor routines are applied only to iterator cursors. M1-M10: the reference counting and list rules of C10. R4: every insert of the LRU cache is followed by the capacity test in the same critical section (C09.R4). R5: the unlink routine overwrites every payload field of the node (key and value) with its zero value on every path that changes the node - a recycled node keeps nothing of the removed entry reachable. R6: what the creator's epilogue removes from a table of the cache (the in-flight table, any further built-in map of the cache struct) on one outcome of the creation it removes - or sees absent - on every outcome. R7: an iterator of the package that owns several source iterators closes every one of them on every path of its Close. R8: a value the cache read from its recency list is put back (the move to the most-recent end) only inside the critical section that read it - between the lookup and the re-insert the mutex is never released (a shared lock that is given up counts): an entry that was evicted, removed or cleared in the gap would be resurrected without a capacity test, one entry above the capacity per occurrence. R9: the creator removes its in-flight entry under the very key value it registered it under (the same evaluation of the key mapping, also seen through the parameters of a private helper) - a key that is derived a second time after the create function ran can differ, and then the registered entry stays in the table for ever, one per call.",
 		NotDecided: "the numeric retention bound and the cost growth; leaks through iterators that user code forgets to close.",
 	})
 }
@@ -906,6 +906,8 @@ func runC11(c *Ctx) {
 	lruCapacityRule(c, resolveLRURoles(c), "C11.R4")
 	c.lruAuxTables(resolveLRURoles(c), "C11.R6")
 	c.compositeCloseClosesAll("C11.R7")
+	c.lruReinsertInSection(resolveLRURoles(c), "C11.R8")
+	c.lruFlightKey(resolveLRURoles(c), "C11.R9")
 }
 
 // lruAuxTables (C11.R6): the tables the cache keeps besides the entries themselves (the in-flight table, any further
